@@ -31,6 +31,12 @@ var snapSeeds = []snapSeed{
 	{"divergent", 3, []uint64{1, 2, 3}, nil, []string{"T:1", "run", "update:1", "run", "update:1", "run",
 		"block:1:2", "block:1:3", "update:1", "update:1", "update:1", "update:1", "run", "disc", "elect:2", "run",
 		"update:2", "run", "update:2", "run", "update:2", "run", "snap:2", "run", "heal:1:2", "heal:1:3"}, nil},
+	// as "divergent", but n1's stale tail (5..11) is long enough to be durable beyond the snapshot index: rolling into a
+	// fourth segment flushed 5..10; a crash in the middle of the snapshot installation leaves snapshot 8 next to a log
+	// that holds other entries at 5..8 and beyond
+	{"divergent-long", 3, []uint64{1, 2, 3}, nil, []string{"T:1", "run", "update:1", "run", "update:1", "run",
+		"block:1:2", "block:1:3", "update:1", "update:1", "update:1", "update:1", "update:1", "update:1", "update:1", "run", "disc", "elect:2", "run",
+		"update:2", "run", "update:2", "run", "update:2", "run", "snap:2", "run", "heal:1:2", "heal:1:3"}, nil},
 	// a follower that misses a membership change: n3 is cut off while node 4 is added and the leader snapshots and
 	// compacts; back in contact n3 needs that snapshot (which carries the newer membership)
 	{"config-lagging", 4, []uint64{1, 2, 3}, nil, []string{"T:1", "run", "update:1", "run", "block:1:3", "admin:1:add:4", "run",
@@ -47,7 +53,7 @@ var snapSeeds = []snapSeed{
 
 // the node clients talk to: the leader the seed script leaves behind
 func seedClients(seed snapSeed) []int {
-	if seed.name == "divergent" {
+	if seed.name == "divergent" || seed.name == "divergent-long" {
 		return []int{1}
 	}
 	if seed.name == "config-lagging" {
@@ -85,12 +91,27 @@ func scenSnap(seed snapSeed, dev int, eagerFSM bool, orderCost bool, maxSnaps in
 	return sc
 }
 
+// "compaction never leaves the node unable to restart or to bring any follower up to date": the divergent follower
+// dies at every storage point of the snapshot installation, restarts, and the cluster must converge (fair
+// continuation from every explored state, as in C17)
+func scenSnapCrashProgress(dev int) *simScenario {
+	sc := crashScenario(scenSnap(snapSeeds[snapSeedIndex("divergent-long")], dev, true, true, 0), dev)
+	sc.Name = "snap-divergent-crash-progress"
+	sc.Menu = simMenu{OrderCost: true, CrashAt: true, Crashes: true, Drops: true}
+	sc.Final = "progress"
+	sc.Opt.Disconnects = false
+	return sc
+}
+
 func snapScenarios(tier string) []*simScenario {
 	var out []*simScenario
 	for _, s := range snapSeeds {
 		if s.name == "second" {
 			out = append(out, scenSnap(s, 2, false, true, 2))
 			continue
+		}
+		if s.name == "divergent-long" {
+			continue // used by the crash + progress scenario only
 		}
 		if s.name == "divergent" || s.name == "config-lagging" || s.name == "boundary" {
 			d := 2
@@ -133,8 +154,20 @@ func init() {
 		}
 		return 240 * time.Second
 	}
-	c09 := &simCheckSpec{Prop: "C09", Oracles: []string{"apply", "snapshot", "view", "alive"},
-		Scenarios: snapScenarios, Budget: budget, MustReach: []string{"snapshots"},
+	simScenarios["snap-divergent-crash-progress"] = scenSnapCrashProgress(1)
+	adv := scenSnapCrashProgress(3)
+	adv.Name = "snap-divergent-crash-adversary"
+	adv.Menu.Timeouts, adv.Menu.MaxTerm = true, 6
+	adv.Final = "adversary"
+	simScenarios[adv.Name] = adv
+	c09 := &simCheckSpec{Prop: "C09", Oracles: []string{"apply", "snapshot", "view", "alive", "progress", "crash"},
+		Scenarios: func(t string) []*simScenario {
+			d := 1
+			if t == "thorough" {
+				d = 2
+			}
+			return append(snapScenarios(t), scenSnapCrashProgress(d))
+		}, Budget: budget, MustReach: []string{"snapshots"},
 		Assume: []string{"'nor invalidates log data a replication task is still reading' is decided by a guard that reports any Log.Get/GetN through an unmapped segment (a SIGSEGV in production) made by the raft, FSM or replication code"}}
 	vkChecks["C09"] = func(args []string) int { return runSimCheck(c09, args) }
 	c12 := &simCheckSpec{Prop: "C12", Oracles: []string{"label"},
